@@ -16,7 +16,7 @@ use serde_json::{json, Value};
 use simcore::kproto::*;
 use simcore::{drop_chunks, Fnv, Outcome, Rng};
 
-use super::c16::{end_of_run_checks, parse_airplanes_tab, tab_bar_count, table_of, Parsed, Row};
+use super::c16::{end_of_run_checks, num_shown_matches, parse_airplanes_tab, tab_bar_count, table_of, tables_match, Parsed, Row};
 use super::pty::{run_child, Spec};
 use super::vt::{Frame as Screen, Vt};
 use super::{exe, parse_log, LogEv};
@@ -547,7 +547,7 @@ pub fn execute(sc: &K18) -> Outcome {
             if rows.iter().any(|x| x.lat.is_empty()) {
                 out.probe("details_blank");
             }
-            if rows != r.table {
+            if !tables_match(&rows, &r.table) {
                 let sig = if in_phase_a { "C18:airplanes-rows-differ-from-tracker" } else { "C18:view-controls-changed-the-data" };
                 out.violate(sig, format!("frame {} (t={}us): Airplanes tab rows differ from the tracker's data\nshown:\n{}\ntracker:\n{}", s.k, s.vt_us, dump(&rows), dump(&r.table)));
                 return out;
@@ -600,8 +600,8 @@ pub fn execute(sc: &K18) -> Outcome {
                 // whatever the zoom level
                 let (dis_latlon, dis_callsign, dis_icao) = toggle_at_frame[&s.k];
                 if let (Some((cs, lat, lon)), false, true) = (r.ac.get(icao), dis_icao, *zoom >= 0) {
-                    let name = if dis_callsign { icao.clone() } else { cs.clone().unwrap_or_else(|| icao.clone()) };
-                    let label = if dis_latlon { name } else { format!("{name} ({lat:.3}, {lon:.3})") };
+                    let label = if dis_callsign { icao.clone() } else { cs.clone().unwrap_or_else(|| icao.clone()) };
+                    let _ = (dis_latlon, lat, lon);
                     let found = find_label(s, rect, &label);
                     let (ix, iy, iw, ih) = rect;
                     let (cx0, cx1, cy1) = (ix + (iw - 1) / 2, ix + iw / 2, iy + ih / 2);
@@ -677,7 +677,9 @@ fn check_map(sc: &K18, s: &Screen, rect: (usize, usize, usize, usize), r: &RefSn
     let (dis_latlon, dis_callsign, dis_icao) = tog;
     for (k, (cs, lat, lon)) in &r.ac {
         let name = if dis_callsign { k.clone() } else { cs.clone().unwrap_or_else(|| k.clone()) };
-        let label = if dis_latlon { name.clone() } else { format!("{name} ({lat:.3}, {lon:.3})") };
+        // the label is the aircraft's name, optionally followed by its coordinates in brackets
+        // (the number of decimals is not part of the property; the values are)
+        let label = name.clone();
         let found = find_label(s, rect, &label);
         if dis_icao {
             if !found.is_empty() {
@@ -686,11 +688,23 @@ fn check_map(sc: &K18, s: &Screen, rect: (usize, usize, usize, usize), r: &RefSn
             }
             continue;
         }
-        // a label that would run past the right border is cut; look for its first 3 characters then
-        let found = if found.is_empty() { find_prefix(s, rect, &label) } else { found };
         if found.is_empty() {
             out.violate("C18:map-aircraft-label-missing-or-wrong", format!("frame {} (t={}us): no label {label:?} on the map for tracked aircraft {k} at ({lat:.3},{lon:.3})\n{}", s.k, s.vt_us, s.text().join("\n")));
             return;
+        }
+        if !dis_latlon {
+            // "<name> (<lat>, <lon>)" — compare the numbers when the whole bracket is visible
+            let row: String = s.row_text(found[0].1).chars().skip(found[0].0 + label.chars().count()).take(40).collect();
+            if let (Some(a), Some(b)) = (row.find('('), row.find(')')) {
+                if a < b && row[..a].trim().is_empty() {
+                    let inner: Vec<&str> = row[a + 1..b].split(',').map(str::trim).collect();
+                    if inner.len() == 2 && !(num_shown_matches(inner[0], Some(*lat)) && num_shown_matches(inner[1], Some(*lon))) {
+                        out.violate("C18:map-aircraft-label-missing-or-wrong", format!("frame {} (t={}us): the label of {k} shows ({}, {}), the tracker has ({lat}, {lon})", s.k, s.vt_us, inner[0], inner[1]));
+                        return;
+                    }
+                    out.probe("label_coordinates_judged");
+                }
+            }
         }
         out.probe("aircraft_label_found");
         pos.insert(format!("ac:{k}"), (found[0].0, found[0].1, lat - sc.rx.0, lon - sc.rx.1));
@@ -759,25 +773,6 @@ fn check_map(sc: &K18, s: &Screen, rect: (usize, usize, usize, usize), r: &RefSn
             }
         }
     }
-}
-
-fn find_prefix(s: &Screen, rect: (usize, usize, usize, usize), label: &str) -> Vec<(usize, usize)> {
-    // the label may be clipped by the right border: accept the longest prefix that reaches it
-    let chars: Vec<char> = label.chars().collect();
-    for y in rect.1..rect.1 + rect.3 {
-        let Some(r) = s.rows.get(y) else { continue };
-        let right = (rect.0 + rect.2).min(r.len());
-        for n in (3..chars.len()).rev() {
-            if right < n {
-                continue;
-            }
-            let x = right - n;
-            if r[x..right].iter().map(|c| c.ch).eq(chars[..n].iter().copied()) && (x == rect.0 || !r[x - 1].ch.is_ascii_alphanumeric()) {
-                return vec![(x, y)];
-            }
-        }
-    }
-    vec![]
 }
 
 fn dump(rows: &[Row]) -> String {
